@@ -263,4 +263,417 @@ theorem kw_of_all {s : Stmt} {k : String} {c : Stmt} (h : c ∈ s.all k) : c.kw 
 theorem type_not_scope {c : Stmt} (h : c.kw = "type") : scopeKinds.contains c.kw = false := by
   rw [h]; decide
 
+/-! ## Frame lemmas: what each overlay step leaves alone -/
+
+@[simp] theorem stepRequireInstance_name (t : Stmt) (s : St) : (stepRequireInstance t s).1.name = s.1.name := by
+  unfold stepRequireInstance; (try simp only []); repeat' (first | rfl | split)
+@[simp] theorem stepRequireInstance_kind (t : Stmt) (s : St) : (stepRequireInstance t s).1.kind = s.1.kind := by
+  unfold stepRequireInstance; (try simp only []); repeat' (first | rfl | split)
+@[simp] theorem stepRequireInstance_units (t : Stmt) (s : St) : (stepRequireInstance t s).1.units = s.1.units := by
+  unfold stepRequireInstance; (try simp only []); repeat' (first | rfl | split)
+@[simp] theorem stepRequireInstance_default (t : Stmt) (s : St) : (stepRequireInstance t s).1.default = s.1.default := by
+  unfold stepRequireInstance; (try simp only []); repeat' (first | rfl | split)
+@[simp] theorem stepRequireInstance_hasDefault (t : Stmt) (s : St) : (stepRequireInstance t s).1.hasDefault = s.1.hasDefault := by
+  unfold stepRequireInstance; (try simp only []); repeat' (first | rfl | split)
+@[simp] theorem stepRequireInstance_fractionDigits (t : Stmt) (s : St) : (stepRequireInstance t s).1.fractionDigits = s.1.fractionDigits := by
+  unfold stepRequireInstance; (try simp only []); repeat' (first | rfl | split)
+@[simp] theorem stepRequireInstance_path (t : Stmt) (s : St) : (stepRequireInstance t s).1.path = s.1.path := by
+  unfold stepRequireInstance; (try simp only []); repeat' (first | rfl | split)
+@[simp] theorem stepRequireInstance_pattern (t : Stmt) (s : St) : (stepRequireInstance t s).1.pattern = s.1.pattern := by
+  unfold stepRequireInstance; (try simp only []); repeat' (first | rfl | split)
+@[simp] theorem stepRequireInstance_enum (t : Stmt) (s : St) : (stepRequireInstance t s).1.enum = s.1.enum := by
+  unfold stepRequireInstance; (try simp only []); repeat' (first | rfl | split)
+@[simp] theorem stepRequireInstance_bit (t : Stmt) (s : St) : (stepRequireInstance t s).1.bit = s.1.bit := by
+  unfold stepRequireInstance; (try simp only []); repeat' (first | rfl | split)
+@[simp] theorem stepRequireInstance_members (t : Stmt) (s : St) : (stepRequireInstance t s).1.members = s.1.members := by
+  unfold stepRequireInstance; (try simp only []); repeat' (first | rfl | split)
+@[simp] theorem stepRequireInstance_identityBase (t : Stmt) (s : St) : (stepRequireInstance t s).1.identityBase = s.1.identityBase := by
+  unfold stepRequireInstance; (try simp only []); repeat' (first | rfl | split)
+@[simp] theorem stepRequireInstance_posixPattern (t : Stmt) (s : St) : (stepRequireInstance t s).1.posixPattern = s.1.posixPattern := by
+  unfold stepRequireInstance; (try simp only []); repeat' (first | rfl | split)
+@[simp] theorem stepRequireInstance_range (t : Stmt) (s : St) : (stepRequireInstance t s).1.range = s.1.range := by
+  unfold stepRequireInstance; (try simp only []); repeat' (first | rfl | split)
+@[simp] theorem stepRequireInstance_length (t : Stmt) (s : St) : (stepRequireInstance t s).1.length = s.1.length := by
+  unfold stepRequireInstance; (try simp only []); repeat' (first | rfl | split)
+@[simp] theorem stepPath_name (t : Stmt) (s : St) : (stepPath t s).1.name = s.1.name := by
+  unfold stepPath; (try simp only []); repeat' (first | rfl | split)
+@[simp] theorem stepPath_kind (t : Stmt) (s : St) : (stepPath t s).1.kind = s.1.kind := by
+  unfold stepPath; (try simp only []); repeat' (first | rfl | split)
+@[simp] theorem stepPath_units (t : Stmt) (s : St) : (stepPath t s).1.units = s.1.units := by
+  unfold stepPath; (try simp only []); repeat' (first | rfl | split)
+@[simp] theorem stepPath_default (t : Stmt) (s : St) : (stepPath t s).1.default = s.1.default := by
+  unfold stepPath; (try simp only []); repeat' (first | rfl | split)
+@[simp] theorem stepPath_hasDefault (t : Stmt) (s : St) : (stepPath t s).1.hasDefault = s.1.hasDefault := by
+  unfold stepPath; (try simp only []); repeat' (first | rfl | split)
+@[simp] theorem stepPath_fractionDigits (t : Stmt) (s : St) : (stepPath t s).1.fractionDigits = s.1.fractionDigits := by
+  unfold stepPath; (try simp only []); repeat' (first | rfl | split)
+@[simp] theorem stepPath_pattern (t : Stmt) (s : St) : (stepPath t s).1.pattern = s.1.pattern := by
+  unfold stepPath; (try simp only []); repeat' (first | rfl | split)
+@[simp] theorem stepPath_enum (t : Stmt) (s : St) : (stepPath t s).1.enum = s.1.enum := by
+  unfold stepPath; (try simp only []); repeat' (first | rfl | split)
+@[simp] theorem stepPath_bit (t : Stmt) (s : St) : (stepPath t s).1.bit = s.1.bit := by
+  unfold stepPath; (try simp only []); repeat' (first | rfl | split)
+@[simp] theorem stepPath_members (t : Stmt) (s : St) : (stepPath t s).1.members = s.1.members := by
+  unfold stepPath; (try simp only []); repeat' (first | rfl | split)
+@[simp] theorem stepPath_identityBase (t : Stmt) (s : St) : (stepPath t s).1.identityBase = s.1.identityBase := by
+  unfold stepPath; (try simp only []); repeat' (first | rfl | split)
+@[simp] theorem stepPath_posixPattern (t : Stmt) (s : St) : (stepPath t s).1.posixPattern = s.1.posixPattern := by
+  unfold stepPath; (try simp only []); repeat' (first | rfl | split)
+@[simp] theorem stepPath_range (t : Stmt) (s : St) : (stepPath t s).1.range = s.1.range := by
+  unfold stepPath; (try simp only []); repeat' (first | rfl | split)
+@[simp] theorem stepPath_length (t : Stmt) (s : St) : (stepPath t s).1.length = s.1.length := by
+  unfold stepPath; (try simp only []); repeat' (first | rfl | split)
+@[simp] theorem stepPath_optionalInstance (t : Stmt) (s : St) : (stepPath t s).1.optionalInstance = s.1.optionalInstance := by
+  unfold stepPath; (try simp only []); repeat' (first | rfl | split)
+@[simp] theorem stepKind_name (env : Env) (root : Mod) (t : Stmt) (src : Source) (dec : Bool) (s : St) : (stepKind env root t src dec s).1.name = s.1.name := by
+  unfold stepKind; (try simp only []); repeat' (first | rfl | split)
+@[simp] theorem stepKind_kind (env : Env) (root : Mod) (t : Stmt) (src : Source) (dec : Bool) (s : St) : (stepKind env root t src dec s).1.kind = s.1.kind := by
+  unfold stepKind; (try simp only []); repeat' (first | rfl | split)
+@[simp] theorem stepKind_units (env : Env) (root : Mod) (t : Stmt) (src : Source) (dec : Bool) (s : St) : (stepKind env root t src dec s).1.units = s.1.units := by
+  unfold stepKind; (try simp only []); repeat' (first | rfl | split)
+@[simp] theorem stepKind_default (env : Env) (root : Mod) (t : Stmt) (src : Source) (dec : Bool) (s : St) : (stepKind env root t src dec s).1.default = s.1.default := by
+  unfold stepKind; (try simp only []); repeat' (first | rfl | split)
+@[simp] theorem stepKind_hasDefault (env : Env) (root : Mod) (t : Stmt) (src : Source) (dec : Bool) (s : St) : (stepKind env root t src dec s).1.hasDefault = s.1.hasDefault := by
+  unfold stepKind; (try simp only []); repeat' (first | rfl | split)
+@[simp] theorem stepKind_path (env : Env) (root : Mod) (t : Stmt) (src : Source) (dec : Bool) (s : St) : (stepKind env root t src dec s).1.path = s.1.path := by
+  unfold stepKind; (try simp only []); repeat' (first | rfl | split)
+@[simp] theorem stepKind_pattern (env : Env) (root : Mod) (t : Stmt) (src : Source) (dec : Bool) (s : St) : (stepKind env root t src dec s).1.pattern = s.1.pattern := by
+  unfold stepKind; (try simp only []); repeat' (first | rfl | split)
+@[simp] theorem stepKind_enum (env : Env) (root : Mod) (t : Stmt) (src : Source) (dec : Bool) (s : St) : (stepKind env root t src dec s).1.enum = s.1.enum := by
+  unfold stepKind; (try simp only []); repeat' (first | rfl | split)
+@[simp] theorem stepKind_bit (env : Env) (root : Mod) (t : Stmt) (src : Source) (dec : Bool) (s : St) : (stepKind env root t src dec s).1.bit = s.1.bit := by
+  unfold stepKind; (try simp only []); repeat' (first | rfl | split)
+@[simp] theorem stepKind_members (env : Env) (root : Mod) (t : Stmt) (src : Source) (dec : Bool) (s : St) : (stepKind env root t src dec s).1.members = s.1.members := by
+  unfold stepKind; (try simp only []); repeat' (first | rfl | split)
+@[simp] theorem stepKind_posixPattern (env : Env) (root : Mod) (t : Stmt) (src : Source) (dec : Bool) (s : St) : (stepKind env root t src dec s).1.posixPattern = s.1.posixPattern := by
+  unfold stepKind; (try simp only []); repeat' (first | rfl | split)
+@[simp] theorem stepKind_length (env : Env) (root : Mod) (t : Stmt) (src : Source) (dec : Bool) (s : St) : (stepKind env root t src dec s).1.length = s.1.length := by
+  unfold stepKind; (try simp only []); repeat' (first | rfl | split)
+@[simp] theorem stepKind_optionalInstance (env : Env) (root : Mod) (t : Stmt) (src : Source) (dec : Bool) (s : St) : (stepKind env root t src dec s).1.optionalInstance = s.1.optionalInstance := by
+  unfold stepKind; (try simp only []); repeat' (first | rfl | split)
+@[simp] theorem stepRange_name (t : Stmt) (dec : Bool) (s : St) : (stepRange t dec s).1.name = s.1.name := by
+  unfold stepRange; (try simp only []); repeat' (first | rfl | split)
+@[simp] theorem stepRange_kind (t : Stmt) (dec : Bool) (s : St) : (stepRange t dec s).1.kind = s.1.kind := by
+  unfold stepRange; (try simp only []); repeat' (first | rfl | split)
+@[simp] theorem stepRange_units (t : Stmt) (dec : Bool) (s : St) : (stepRange t dec s).1.units = s.1.units := by
+  unfold stepRange; (try simp only []); repeat' (first | rfl | split)
+@[simp] theorem stepRange_default (t : Stmt) (dec : Bool) (s : St) : (stepRange t dec s).1.default = s.1.default := by
+  unfold stepRange; (try simp only []); repeat' (first | rfl | split)
+@[simp] theorem stepRange_hasDefault (t : Stmt) (dec : Bool) (s : St) : (stepRange t dec s).1.hasDefault = s.1.hasDefault := by
+  unfold stepRange; (try simp only []); repeat' (first | rfl | split)
+@[simp] theorem stepRange_fractionDigits (t : Stmt) (dec : Bool) (s : St) : (stepRange t dec s).1.fractionDigits = s.1.fractionDigits := by
+  unfold stepRange; (try simp only []); repeat' (first | rfl | split)
+@[simp] theorem stepRange_path (t : Stmt) (dec : Bool) (s : St) : (stepRange t dec s).1.path = s.1.path := by
+  unfold stepRange; (try simp only []); repeat' (first | rfl | split)
+@[simp] theorem stepRange_pattern (t : Stmt) (dec : Bool) (s : St) : (stepRange t dec s).1.pattern = s.1.pattern := by
+  unfold stepRange; (try simp only []); repeat' (first | rfl | split)
+@[simp] theorem stepRange_enum (t : Stmt) (dec : Bool) (s : St) : (stepRange t dec s).1.enum = s.1.enum := by
+  unfold stepRange; (try simp only []); repeat' (first | rfl | split)
+@[simp] theorem stepRange_bit (t : Stmt) (dec : Bool) (s : St) : (stepRange t dec s).1.bit = s.1.bit := by
+  unfold stepRange; (try simp only []); repeat' (first | rfl | split)
+@[simp] theorem stepRange_members (t : Stmt) (dec : Bool) (s : St) : (stepRange t dec s).1.members = s.1.members := by
+  unfold stepRange; (try simp only []); repeat' (first | rfl | split)
+@[simp] theorem stepRange_identityBase (t : Stmt) (dec : Bool) (s : St) : (stepRange t dec s).1.identityBase = s.1.identityBase := by
+  unfold stepRange; (try simp only []); repeat' (first | rfl | split)
+@[simp] theorem stepRange_posixPattern (t : Stmt) (dec : Bool) (s : St) : (stepRange t dec s).1.posixPattern = s.1.posixPattern := by
+  unfold stepRange; (try simp only []); repeat' (first | rfl | split)
+@[simp] theorem stepRange_length (t : Stmt) (dec : Bool) (s : St) : (stepRange t dec s).1.length = s.1.length := by
+  unfold stepRange; (try simp only []); repeat' (first | rfl | split)
+@[simp] theorem stepRange_optionalInstance (t : Stmt) (dec : Bool) (s : St) : (stepRange t dec s).1.optionalInstance = s.1.optionalInstance := by
+  unfold stepRange; (try simp only []); repeat' (first | rfl | split)
+@[simp] theorem stepLength_name (t : Stmt) (s : St) : (stepLength t s).1.name = s.1.name := by
+  unfold stepLength; (try simp only []); repeat' (first | rfl | split)
+@[simp] theorem stepLength_kind (t : Stmt) (s : St) : (stepLength t s).1.kind = s.1.kind := by
+  unfold stepLength; (try simp only []); repeat' (first | rfl | split)
+@[simp] theorem stepLength_units (t : Stmt) (s : St) : (stepLength t s).1.units = s.1.units := by
+  unfold stepLength; (try simp only []); repeat' (first | rfl | split)
+@[simp] theorem stepLength_default (t : Stmt) (s : St) : (stepLength t s).1.default = s.1.default := by
+  unfold stepLength; (try simp only []); repeat' (first | rfl | split)
+@[simp] theorem stepLength_hasDefault (t : Stmt) (s : St) : (stepLength t s).1.hasDefault = s.1.hasDefault := by
+  unfold stepLength; (try simp only []); repeat' (first | rfl | split)
+@[simp] theorem stepLength_fractionDigits (t : Stmt) (s : St) : (stepLength t s).1.fractionDigits = s.1.fractionDigits := by
+  unfold stepLength; (try simp only []); repeat' (first | rfl | split)
+@[simp] theorem stepLength_path (t : Stmt) (s : St) : (stepLength t s).1.path = s.1.path := by
+  unfold stepLength; (try simp only []); repeat' (first | rfl | split)
+@[simp] theorem stepLength_pattern (t : Stmt) (s : St) : (stepLength t s).1.pattern = s.1.pattern := by
+  unfold stepLength; (try simp only []); repeat' (first | rfl | split)
+@[simp] theorem stepLength_enum (t : Stmt) (s : St) : (stepLength t s).1.enum = s.1.enum := by
+  unfold stepLength; (try simp only []); repeat' (first | rfl | split)
+@[simp] theorem stepLength_bit (t : Stmt) (s : St) : (stepLength t s).1.bit = s.1.bit := by
+  unfold stepLength; (try simp only []); repeat' (first | rfl | split)
+@[simp] theorem stepLength_members (t : Stmt) (s : St) : (stepLength t s).1.members = s.1.members := by
+  unfold stepLength; (try simp only []); repeat' (first | rfl | split)
+@[simp] theorem stepLength_identityBase (t : Stmt) (s : St) : (stepLength t s).1.identityBase = s.1.identityBase := by
+  unfold stepLength; (try simp only []); repeat' (first | rfl | split)
+@[simp] theorem stepLength_posixPattern (t : Stmt) (s : St) : (stepLength t s).1.posixPattern = s.1.posixPattern := by
+  unfold stepLength; (try simp only []); repeat' (first | rfl | split)
+@[simp] theorem stepLength_range (t : Stmt) (s : St) : (stepLength t s).1.range = s.1.range := by
+  unfold stepLength; (try simp only []); repeat' (first | rfl | split)
+@[simp] theorem stepLength_optionalInstance (t : Stmt) (s : St) : (stepLength t s).1.optionalInstance = s.1.optionalInstance := by
+  unfold stepLength; (try simp only []); repeat' (first | rfl | split)
+@[simp] theorem stepEnum_name (t : Stmt) (s : St) : (stepEnum t s).1.name = s.1.name := by
+  unfold stepEnum; (try simp only []); repeat' (first | rfl | split)
+@[simp] theorem stepEnum_kind (t : Stmt) (s : St) : (stepEnum t s).1.kind = s.1.kind := by
+  unfold stepEnum; (try simp only []); repeat' (first | rfl | split)
+@[simp] theorem stepEnum_units (t : Stmt) (s : St) : (stepEnum t s).1.units = s.1.units := by
+  unfold stepEnum; (try simp only []); repeat' (first | rfl | split)
+@[simp] theorem stepEnum_default (t : Stmt) (s : St) : (stepEnum t s).1.default = s.1.default := by
+  unfold stepEnum; (try simp only []); repeat' (first | rfl | split)
+@[simp] theorem stepEnum_hasDefault (t : Stmt) (s : St) : (stepEnum t s).1.hasDefault = s.1.hasDefault := by
+  unfold stepEnum; (try simp only []); repeat' (first | rfl | split)
+@[simp] theorem stepEnum_fractionDigits (t : Stmt) (s : St) : (stepEnum t s).1.fractionDigits = s.1.fractionDigits := by
+  unfold stepEnum; (try simp only []); repeat' (first | rfl | split)
+@[simp] theorem stepEnum_path (t : Stmt) (s : St) : (stepEnum t s).1.path = s.1.path := by
+  unfold stepEnum; (try simp only []); repeat' (first | rfl | split)
+@[simp] theorem stepEnum_pattern (t : Stmt) (s : St) : (stepEnum t s).1.pattern = s.1.pattern := by
+  unfold stepEnum; (try simp only []); repeat' (first | rfl | split)
+@[simp] theorem stepEnum_bit (t : Stmt) (s : St) : (stepEnum t s).1.bit = s.1.bit := by
+  unfold stepEnum; (try simp only []); repeat' (first | rfl | split)
+@[simp] theorem stepEnum_members (t : Stmt) (s : St) : (stepEnum t s).1.members = s.1.members := by
+  unfold stepEnum; (try simp only []); repeat' (first | rfl | split)
+@[simp] theorem stepEnum_identityBase (t : Stmt) (s : St) : (stepEnum t s).1.identityBase = s.1.identityBase := by
+  unfold stepEnum; (try simp only []); repeat' (first | rfl | split)
+@[simp] theorem stepEnum_posixPattern (t : Stmt) (s : St) : (stepEnum t s).1.posixPattern = s.1.posixPattern := by
+  unfold stepEnum; (try simp only []); repeat' (first | rfl | split)
+@[simp] theorem stepEnum_range (t : Stmt) (s : St) : (stepEnum t s).1.range = s.1.range := by
+  unfold stepEnum; (try simp only []); repeat' (first | rfl | split)
+@[simp] theorem stepEnum_length (t : Stmt) (s : St) : (stepEnum t s).1.length = s.1.length := by
+  unfold stepEnum; (try simp only []); repeat' (first | rfl | split)
+@[simp] theorem stepEnum_optionalInstance (t : Stmt) (s : St) : (stepEnum t s).1.optionalInstance = s.1.optionalInstance := by
+  unfold stepEnum; (try simp only []); repeat' (first | rfl | split)
+@[simp] theorem stepBit_name (t : Stmt) (s : St) : (stepBit t s).1.name = s.1.name := by
+  unfold stepBit; (try simp only []); repeat' (first | rfl | split)
+@[simp] theorem stepBit_kind (t : Stmt) (s : St) : (stepBit t s).1.kind = s.1.kind := by
+  unfold stepBit; (try simp only []); repeat' (first | rfl | split)
+@[simp] theorem stepBit_units (t : Stmt) (s : St) : (stepBit t s).1.units = s.1.units := by
+  unfold stepBit; (try simp only []); repeat' (first | rfl | split)
+@[simp] theorem stepBit_default (t : Stmt) (s : St) : (stepBit t s).1.default = s.1.default := by
+  unfold stepBit; (try simp only []); repeat' (first | rfl | split)
+@[simp] theorem stepBit_hasDefault (t : Stmt) (s : St) : (stepBit t s).1.hasDefault = s.1.hasDefault := by
+  unfold stepBit; (try simp only []); repeat' (first | rfl | split)
+@[simp] theorem stepBit_fractionDigits (t : Stmt) (s : St) : (stepBit t s).1.fractionDigits = s.1.fractionDigits := by
+  unfold stepBit; (try simp only []); repeat' (first | rfl | split)
+@[simp] theorem stepBit_path (t : Stmt) (s : St) : (stepBit t s).1.path = s.1.path := by
+  unfold stepBit; (try simp only []); repeat' (first | rfl | split)
+@[simp] theorem stepBit_pattern (t : Stmt) (s : St) : (stepBit t s).1.pattern = s.1.pattern := by
+  unfold stepBit; (try simp only []); repeat' (first | rfl | split)
+@[simp] theorem stepBit_enum (t : Stmt) (s : St) : (stepBit t s).1.enum = s.1.enum := by
+  unfold stepBit; (try simp only []); repeat' (first | rfl | split)
+@[simp] theorem stepBit_members (t : Stmt) (s : St) : (stepBit t s).1.members = s.1.members := by
+  unfold stepBit; (try simp only []); repeat' (first | rfl | split)
+@[simp] theorem stepBit_identityBase (t : Stmt) (s : St) : (stepBit t s).1.identityBase = s.1.identityBase := by
+  unfold stepBit; (try simp only []); repeat' (first | rfl | split)
+@[simp] theorem stepBit_posixPattern (t : Stmt) (s : St) : (stepBit t s).1.posixPattern = s.1.posixPattern := by
+  unfold stepBit; (try simp only []); repeat' (first | rfl | split)
+@[simp] theorem stepBit_range (t : Stmt) (s : St) : (stepBit t s).1.range = s.1.range := by
+  unfold stepBit; (try simp only []); repeat' (first | rfl | split)
+@[simp] theorem stepBit_length (t : Stmt) (s : St) : (stepBit t s).1.length = s.1.length := by
+  unfold stepBit; (try simp only []); repeat' (first | rfl | split)
+@[simp] theorem stepBit_optionalInstance (t : Stmt) (s : St) : (stepBit t s).1.optionalInstance = s.1.optionalInstance := by
+  unfold stepBit; (try simp only []); repeat' (first | rfl | split)
+@[simp] theorem stepPattern_name (t : Stmt) (s : St) : (stepPattern t s).1.name = s.1.name := by
+  unfold stepPattern; (try simp only []); repeat' (first | rfl | split)
+@[simp] theorem stepPattern_kind (t : Stmt) (s : St) : (stepPattern t s).1.kind = s.1.kind := by
+  unfold stepPattern; (try simp only []); repeat' (first | rfl | split)
+@[simp] theorem stepPattern_units (t : Stmt) (s : St) : (stepPattern t s).1.units = s.1.units := by
+  unfold stepPattern; (try simp only []); repeat' (first | rfl | split)
+@[simp] theorem stepPattern_default (t : Stmt) (s : St) : (stepPattern t s).1.default = s.1.default := by
+  unfold stepPattern; (try simp only []); repeat' (first | rfl | split)
+@[simp] theorem stepPattern_hasDefault (t : Stmt) (s : St) : (stepPattern t s).1.hasDefault = s.1.hasDefault := by
+  unfold stepPattern; (try simp only []); repeat' (first | rfl | split)
+@[simp] theorem stepPattern_fractionDigits (t : Stmt) (s : St) : (stepPattern t s).1.fractionDigits = s.1.fractionDigits := by
+  unfold stepPattern; (try simp only []); repeat' (first | rfl | split)
+@[simp] theorem stepPattern_path (t : Stmt) (s : St) : (stepPattern t s).1.path = s.1.path := by
+  unfold stepPattern; (try simp only []); repeat' (first | rfl | split)
+@[simp] theorem stepPattern_enum (t : Stmt) (s : St) : (stepPattern t s).1.enum = s.1.enum := by
+  unfold stepPattern; (try simp only []); repeat' (first | rfl | split)
+@[simp] theorem stepPattern_bit (t : Stmt) (s : St) : (stepPattern t s).1.bit = s.1.bit := by
+  unfold stepPattern; (try simp only []); repeat' (first | rfl | split)
+@[simp] theorem stepPattern_members (t : Stmt) (s : St) : (stepPattern t s).1.members = s.1.members := by
+  unfold stepPattern; (try simp only []); repeat' (first | rfl | split)
+@[simp] theorem stepPattern_identityBase (t : Stmt) (s : St) : (stepPattern t s).1.identityBase = s.1.identityBase := by
+  unfold stepPattern; (try simp only []); repeat' (first | rfl | split)
+@[simp] theorem stepPattern_posixPattern (t : Stmt) (s : St) : (stepPattern t s).1.posixPattern = s.1.posixPattern := by
+  unfold stepPattern; (try simp only []); repeat' (first | rfl | split)
+@[simp] theorem stepPattern_range (t : Stmt) (s : St) : (stepPattern t s).1.range = s.1.range := by
+  unfold stepPattern; (try simp only []); repeat' (first | rfl | split)
+@[simp] theorem stepPattern_length (t : Stmt) (s : St) : (stepPattern t s).1.length = s.1.length := by
+  unfold stepPattern; (try simp only []); repeat' (first | rfl | split)
+@[simp] theorem stepPattern_optionalInstance (t : Stmt) (s : St) : (stepPattern t s).1.optionalInstance = s.1.optionalInstance := by
+  unfold stepPattern; (try simp only []); repeat' (first | rfl | split)
+@[simp] theorem stepPosix_name (env : Env) (pps : List Stmt) (s : St) : (stepPosix env pps s).1.name = s.1.name := by
+  unfold stepPosix; (try simp only []); repeat' (first | rfl | split)
+@[simp] theorem stepPosix_kind (env : Env) (pps : List Stmt) (s : St) : (stepPosix env pps s).1.kind = s.1.kind := by
+  unfold stepPosix; (try simp only []); repeat' (first | rfl | split)
+@[simp] theorem stepPosix_units (env : Env) (pps : List Stmt) (s : St) : (stepPosix env pps s).1.units = s.1.units := by
+  unfold stepPosix; (try simp only []); repeat' (first | rfl | split)
+@[simp] theorem stepPosix_default (env : Env) (pps : List Stmt) (s : St) : (stepPosix env pps s).1.default = s.1.default := by
+  unfold stepPosix; (try simp only []); repeat' (first | rfl | split)
+@[simp] theorem stepPosix_hasDefault (env : Env) (pps : List Stmt) (s : St) : (stepPosix env pps s).1.hasDefault = s.1.hasDefault := by
+  unfold stepPosix; (try simp only []); repeat' (first | rfl | split)
+@[simp] theorem stepPosix_fractionDigits (env : Env) (pps : List Stmt) (s : St) : (stepPosix env pps s).1.fractionDigits = s.1.fractionDigits := by
+  unfold stepPosix; (try simp only []); repeat' (first | rfl | split)
+@[simp] theorem stepPosix_path (env : Env) (pps : List Stmt) (s : St) : (stepPosix env pps s).1.path = s.1.path := by
+  unfold stepPosix; (try simp only []); repeat' (first | rfl | split)
+@[simp] theorem stepPosix_pattern (env : Env) (pps : List Stmt) (s : St) : (stepPosix env pps s).1.pattern = s.1.pattern := by
+  unfold stepPosix; (try simp only []); repeat' (first | rfl | split)
+@[simp] theorem stepPosix_enum (env : Env) (pps : List Stmt) (s : St) : (stepPosix env pps s).1.enum = s.1.enum := by
+  unfold stepPosix; (try simp only []); repeat' (first | rfl | split)
+@[simp] theorem stepPosix_bit (env : Env) (pps : List Stmt) (s : St) : (stepPosix env pps s).1.bit = s.1.bit := by
+  unfold stepPosix; (try simp only []); repeat' (first | rfl | split)
+@[simp] theorem stepPosix_members (env : Env) (pps : List Stmt) (s : St) : (stepPosix env pps s).1.members = s.1.members := by
+  unfold stepPosix; (try simp only []); repeat' (first | rfl | split)
+@[simp] theorem stepPosix_identityBase (env : Env) (pps : List Stmt) (s : St) : (stepPosix env pps s).1.identityBase = s.1.identityBase := by
+  unfold stepPosix; (try simp only []); repeat' (first | rfl | split)
+@[simp] theorem stepPosix_range (env : Env) (pps : List Stmt) (s : St) : (stepPosix env pps s).1.range = s.1.range := by
+  unfold stepPosix; (try simp only []); repeat' (first | rfl | split)
+@[simp] theorem stepPosix_length (env : Env) (pps : List Stmt) (s : St) : (stepPosix env pps s).1.length = s.1.length := by
+  unfold stepPosix; (try simp only []); repeat' (first | rfl | split)
+@[simp] theorem stepPosix_optionalInstance (env : Env) (pps : List Stmt) (s : St) : (stepPosix env pps s).1.optionalInstance = s.1.optionalInstance := by
+  unfold stepPosix; (try simp only []); repeat' (first | rfl | split)
+@[simp] theorem stepMembers_name (ms : List Res) (s : St) : (stepMembers ms s).1.name = s.1.name := by
+  unfold stepMembers; (try simp only []); repeat' (first | rfl | split)
+@[simp] theorem stepMembers_kind (ms : List Res) (s : St) : (stepMembers ms s).1.kind = s.1.kind := by
+  unfold stepMembers; (try simp only []); repeat' (first | rfl | split)
+@[simp] theorem stepMembers_units (ms : List Res) (s : St) : (stepMembers ms s).1.units = s.1.units := by
+  unfold stepMembers; (try simp only []); repeat' (first | rfl | split)
+@[simp] theorem stepMembers_default (ms : List Res) (s : St) : (stepMembers ms s).1.default = s.1.default := by
+  unfold stepMembers; (try simp only []); repeat' (first | rfl | split)
+@[simp] theorem stepMembers_hasDefault (ms : List Res) (s : St) : (stepMembers ms s).1.hasDefault = s.1.hasDefault := by
+  unfold stepMembers; (try simp only []); repeat' (first | rfl | split)
+@[simp] theorem stepMembers_fractionDigits (ms : List Res) (s : St) : (stepMembers ms s).1.fractionDigits = s.1.fractionDigits := by
+  unfold stepMembers; (try simp only []); repeat' (first | rfl | split)
+@[simp] theorem stepMembers_path (ms : List Res) (s : St) : (stepMembers ms s).1.path = s.1.path := by
+  unfold stepMembers; (try simp only []); repeat' (first | rfl | split)
+@[simp] theorem stepMembers_pattern (ms : List Res) (s : St) : (stepMembers ms s).1.pattern = s.1.pattern := by
+  unfold stepMembers; (try simp only []); repeat' (first | rfl | split)
+@[simp] theorem stepMembers_enum (ms : List Res) (s : St) : (stepMembers ms s).1.enum = s.1.enum := by
+  unfold stepMembers; (try simp only []); repeat' (first | rfl | split)
+@[simp] theorem stepMembers_bit (ms : List Res) (s : St) : (stepMembers ms s).1.bit = s.1.bit := by
+  unfold stepMembers; (try simp only []); repeat' (first | rfl | split)
+@[simp] theorem stepMembers_identityBase (ms : List Res) (s : St) : (stepMembers ms s).1.identityBase = s.1.identityBase := by
+  unfold stepMembers; (try simp only []); repeat' (first | rfl | split)
+@[simp] theorem stepMembers_posixPattern (ms : List Res) (s : St) : (stepMembers ms s).1.posixPattern = s.1.posixPattern := by
+  unfold stepMembers; (try simp only []); repeat' (first | rfl | split)
+@[simp] theorem stepMembers_range (ms : List Res) (s : St) : (stepMembers ms s).1.range = s.1.range := by
+  unfold stepMembers; (try simp only []); repeat' (first | rfl | split)
+@[simp] theorem stepMembers_length (ms : List Res) (s : St) : (stepMembers ms s).1.length = s.1.length := by
+  unfold stepMembers; (try simp only []); repeat' (first | rfl | split)
+@[simp] theorem stepMembers_optionalInstance (ms : List Res) (s : St) : (stepMembers ms s).1.optionalInstance = s.1.optionalInstance := by
+  unfold stepMembers; (try simp only []); repeat' (first | rfl | split)
+@[simp] theorem fixRoot_name (y : YType) : (fixRoot y).name = y.name := by
+  unfold fixRoot; repeat' (first | rfl | split)
+@[simp] theorem copyOf_name (y : YType) : y.copyOf.name = y.name := rfl
+@[simp] theorem fixRoot_kind (y : YType) : (fixRoot y).kind = y.kind := by
+  unfold fixRoot; repeat' (first | rfl | split)
+@[simp] theorem copyOf_kind (y : YType) : y.copyOf.kind = y.kind := rfl
+@[simp] theorem fixRoot_units (y : YType) : (fixRoot y).units = y.units := by
+  unfold fixRoot; repeat' (first | rfl | split)
+@[simp] theorem copyOf_units (y : YType) : y.copyOf.units = y.units := rfl
+@[simp] theorem fixRoot_default (y : YType) : (fixRoot y).default = y.default := by
+  unfold fixRoot; repeat' (first | rfl | split)
+@[simp] theorem copyOf_default (y : YType) : y.copyOf.default = y.default := rfl
+@[simp] theorem fixRoot_hasDefault (y : YType) : (fixRoot y).hasDefault = y.hasDefault := by
+  unfold fixRoot; repeat' (first | rfl | split)
+@[simp] theorem copyOf_hasDefault (y : YType) : y.copyOf.hasDefault = y.hasDefault := rfl
+@[simp] theorem fixRoot_fractionDigits (y : YType) : (fixRoot y).fractionDigits = y.fractionDigits := by
+  unfold fixRoot; repeat' (first | rfl | split)
+@[simp] theorem copyOf_fractionDigits (y : YType) : y.copyOf.fractionDigits = y.fractionDigits := rfl
+@[simp] theorem fixRoot_path (y : YType) : (fixRoot y).path = y.path := by
+  unfold fixRoot; repeat' (first | rfl | split)
+@[simp] theorem copyOf_path (y : YType) : y.copyOf.path = y.path := rfl
+@[simp] theorem fixRoot_pattern (y : YType) : (fixRoot y).pattern = y.pattern := by
+  unfold fixRoot; repeat' (first | rfl | split)
+@[simp] theorem copyOf_pattern (y : YType) : y.copyOf.pattern = y.pattern := rfl
+@[simp] theorem fixRoot_enum (y : YType) : (fixRoot y).enum = y.enum := by
+  unfold fixRoot; repeat' (first | rfl | split)
+@[simp] theorem copyOf_enum (y : YType) : y.copyOf.enum = y.enum := rfl
+@[simp] theorem fixRoot_bit (y : YType) : (fixRoot y).bit = y.bit := by
+  unfold fixRoot; repeat' (first | rfl | split)
+@[simp] theorem copyOf_bit (y : YType) : y.copyOf.bit = y.bit := rfl
+@[simp] theorem fixRoot_members (y : YType) : (fixRoot y).members = y.members := by
+  unfold fixRoot; repeat' (first | rfl | split)
+@[simp] theorem copyOf_members (y : YType) : y.copyOf.members = y.members := rfl
+@[simp] theorem fixRoot_identityBase (y : YType) : (fixRoot y).identityBase = y.identityBase := by
+  unfold fixRoot; repeat' (first | rfl | split)
+@[simp] theorem copyOf_identityBase (y : YType) : y.copyOf.identityBase = y.identityBase := rfl
+@[simp] theorem fixRoot_posixPattern (y : YType) : (fixRoot y).posixPattern = y.posixPattern := by
+  unfold fixRoot; repeat' (first | rfl | split)
+@[simp] theorem copyOf_posixPattern (y : YType) : y.copyOf.posixPattern = y.posixPattern := rfl
+@[simp] theorem fixRoot_range (y : YType) : (fixRoot y).range = y.range := by
+  unfold fixRoot; repeat' (first | rfl | split)
+@[simp] theorem copyOf_range (y : YType) : y.copyOf.range = y.range := rfl
+@[simp] theorem fixRoot_length (y : YType) : (fixRoot y).length = y.length := by
+  unfold fixRoot; repeat' (first | rfl | split)
+@[simp] theorem copyOf_length (y : YType) : y.copyOf.length = y.length := rfl
+@[simp] theorem fixRoot_optionalInstance (y : YType) : (fixRoot y).optionalInstance = y.optionalInstance := by
+  unfold fixRoot; repeat' (first | rfl | split)
+@[simp] theorem copyOf_optionalInstance (y : YType) : y.copyOf.optionalInstance = y.optionalInstance := rfl
+
+/-! ## Errors only grow -/
+
+theorem stepRequireInstance_errs_nil {t : Stmt} {s : St} (h : (stepRequireInstance t s).2 = []) : s.2 = [] := by
+  unfold stepRequireInstance at h
+  repeat' (first | exact h | (simp at h; done) | split at h)
+theorem stepPath_errs (t : Stmt) (s : St) : (stepPath t s).2 = s.2 := by
+  unfold stepPath; repeat' (first | rfl | split)
+theorem stepKind_errs_nil {env : Env} {root : Mod} {t : Stmt} {src : Source} {dec : Bool} {s : St}
+    (h : (stepKind env root t src dec s).2 = []) : s.2 = [] := by
+  unfold stepKind at h
+  simp only [] at h
+  repeat' (first | exact h | (simp at h; done) | split at h)
+theorem stepRange_errs_nil {t : Stmt} {dec : Bool} {s : St} (h : (stepRange t dec s).2 = []) : s.2 = [] := by
+  unfold stepRange at h
+  repeat' (first | exact h | (simp at h; done) | split at h)
+theorem stepLength_errs_nil {t : Stmt} {s : St} (h : (stepLength t s).2 = []) : s.2 = [] := by
+  unfold stepLength at h
+  repeat' (first | exact h | (simp at h; done) | split at h)
+theorem stepEnum_errs_nil {t : Stmt} {s : St} (h : (stepEnum t s).2 = []) : s.2 = [] := by
+  unfold stepEnum at h
+  split at h
+  · exact h
+  · exact (List.append_eq_nil_iff.mp h).1
+theorem stepBit_errs_nil {t : Stmt} {s : St} (h : (stepBit t s).2 = []) : s.2 = [] := by
+  unfold stepBit at h
+  split at h
+  · exact h
+  · exact (List.append_eq_nil_iff.mp h).1
+theorem stepPattern_errs (t : Stmt) (s : St) : (stepPattern t s).2 = s.2 := rfl
+theorem stepPosix_errs_nil {env : Env} {pps : List Stmt} {s : St} (h : (stepPosix env pps s).2 = []) : s.2 = [] :=
+  (List.append_eq_nil_iff.mp h).1
+theorem stepMembers_errs_nil {ms : List Res} {s : St} (h : (stepMembers ms s).2 = []) : s.2 = [] :=
+  (List.append_eq_nil_iff.mp h).1
+
+/-- The state after the kind switch, in an error-free overlay. -/
+theorem overlayLocal_errs_nil {env : Env} {root : Mod} {t : Stmt} {src : Source} {tdY : YType} {s : St}
+    (h : (overlayLocal env root t src tdY s).2 = []) :
+    (stepKind env root t src (isDecimal64 t tdY) s).2 = [] := by
+  unfold overlayLocal at h
+  simp only [] at h
+  rw [stepPattern_errs] at h
+  exact stepRange_errs_nil (stepLength_errs_nil (stepEnum_errs_nil (stepBit_errs_nil h)))
+
+/-! ## The shape of an error-free overlay -/
+
+/-- The state `Type.resolve` starts its kind switch with. -/
+def startSt (t : Stmt) (tdY : YType) : St := stepPath t (stepRequireInstance t (tdY.copyOf, []))
+
+theorem overlayType_ok {env : Env} {root : Mod} {t : Stmt} {src : Source} {tdY : YType} {ms : List Res} {y : YType}
+    (h : overlayType env root t src tdY ms = { ty := some y, errs := [] }) :
+    ¬ ((isDecimal64 t tdY && tdY.fractionDigits != 0 && (t.one? "fraction-digits").isSome) = true) ∧
+    ∃ pps, posixPatterns env root t = some pps ∧
+      y = fixRoot (stepMembers ms (stepPosix env pps (overlayLocal env root t src tdY (startSt t tdY)))).1 ∧
+      (stepMembers ms (stepPosix env pps (overlayLocal env root t src tdY (startSt t tdY)))).2 = [] := by
+  unfold overlayType at h
+  simp only [] at h
+  split at h
+  · simp at h
+  · rename_i hc
+    refine ⟨hc, ?_⟩
+    split at h
+    · simp at h
+    · rename_i pps hp
+      simp only [Res.mk.injEq, Option.some.injEq] at h
+      exact ⟨pps, hp, h.1.symm, h.2⟩
+
 end Goyang.Lemmas.Types
